@@ -154,6 +154,14 @@ impl Ctx {
                     registered_at: self.loc(),
                 }
                 .into(),
+                "config" => s::ConfigType {
+                    coordinates: self.coords(c),
+                    cloning_policy: Self::cloning(op),
+                    default_if_missing: op.get("default_if_missing").and_then(|b| b.as_bool()),
+                    include_if_unused: op.get("include_if_unused").and_then(|b| b.as_bool()),
+                    registered_at: self.loc(),
+                }
+                .into(),
                 "routes" => {
                     // bp.routes(from![<module>]) invoked from the root module of verif_app
                     let module = op["module"].as_str().expect("module").to_string();
@@ -192,8 +200,19 @@ impl Ctx {
                         domain: p.to_string(),
                         registered_at: self.loc(),
                     });
+                    // `"loc": n` = the nested blueprint is the value of a FUNCTION whose body starts at line n: two `nest`
+                    // ops with the same `loc` describe `bp.nest(api())` called twice — every registration inside carries
+                    // the same source location both times (the call sites, above, still differ).
+                    let saved = self.line;
+                    if let Some(l) = op.get("loc").and_then(|l| l.as_u64()) {
+                        self.line = l as u32;
+                    }
+                    let blueprint = self.blueprint(&op["bp"]);
+                    if op.get("loc").is_some() {
+                        self.line = saved;
+                    }
                     s::NestedBlueprint {
-                        blueprint: self.blueprint(&op["bp"]),
+                        blueprint,
                         path_prefix,
                         domain,
                         nested_at,
